@@ -109,6 +109,7 @@ type Stats struct {
 	RandDraws       uint64
 	GoSpawns        uint64
 	SyncOps         uint64
+	StarveGuards    uint64
 	Fingerprint     uint64
 	PairFP          []uint64 // hashes of (preempted site, resumed site)
 	Truncated       bool
@@ -136,7 +137,8 @@ var (
 	nchange  int
 	lowPrio  int32
 
-	opBudget uint64 = 4_000_000
+	opBudget   uint64 = 4_000_000
+	softBudget uint64 = 100_000
 
 	// Site coverage (indexed by site id); sized by SetSites.
 	SiteHits    []uint32
@@ -194,8 +196,21 @@ func Y(site uint32) {
 	t.lstep++
 	t.opSteps++
 	t.lastSite = site
-	if t.opSteps > opBudget {
-		abort("no-progress", "")
+	if t.opSteps > softBudget {
+		if t.opSteps > opBudget {
+			abort("no-progress", noProgressDetail(t, site))
+		}
+		// Starvation guard: an operation that has run unusually long may be
+		// waiting (legitimately) for another task that the current policy never
+		// schedules; from here on, hand the turn round-robin every 64 steps so
+		// that only a wait nobody can ever satisfy reaches the hard budget.
+		if t.opSteps%64 == 0 {
+			if to := pick(cur); to >= 0 {
+				stats.StarveGuards++
+				preempt(t, site, to, 0)
+				return
+			}
+		}
 	}
 	to := decide(t, site, false)
 	if to >= 0 && to != cur {
@@ -487,6 +502,18 @@ func Block(addr unsafe.Pointer) {
 	me := cur
 	cur = to
 	waitTurn(me)
+}
+
+//go:norace
+func noProgressDetail(t *task, site uint32) string {
+	b := make([]byte, 0, 64)
+	b = append(b, "task "...)
+	b = appendUint(b, uint64(cur))
+	b = append(b, " op "...)
+	b = appendUint(b, uint64(t.op))
+	b = append(b, " still running at site "...)
+	b = appendUint(b, uint64(site))
+	return string(b)
 }
 
 //go:norace
